@@ -46,6 +46,9 @@ def check_options():
         print(nodeio.write_smtlib(sys.stdout, exprs))
         sys.exit(0)
 
+    if options.args().jobs < 1:
+        raise DDSMTException('The number of jobs must be at least 1')
+
     # check executable
     if not options.args().cmd:
         raise DDSMTException('No executable was specified as command')
